@@ -31,7 +31,9 @@ props! {
     "C06" => c06,
     "C07" => c07,
     "C08" => c08,
+    "C09" => c09,
     "C15" => c15,
+    "C16" => c16,
     "C17" => c17,
     "C18" => c18,
     "C19" => c19,
@@ -42,6 +44,7 @@ props! {
     "C24" => c24,
     "C25" => c25,
     "C26" => c26,
+    "C28" => c28,
     "C29" => c29,
     "C35" => c35,
     "C36" => c36,
